@@ -4143,7 +4143,13 @@ class ISLaUnparser:
             )
 
     def _unparse_match_expr(self, match_expr: BindExpression | None) -> str:
-        return "" if match_expr is None else f'="{match_expr}"'
+        if match_expr is None:
+            return ""
+
+        # Backslashes and quotes in terminal symbols have to be escaped (see
+        # `helpers.instantiate_escaped_symbols`, which the parser applies).
+        escaped = str(match_expr).replace("\\", "\\\\").replace('"', '\\"')
+        return f'="{escaped}"'
 
     def _unparse_quantified_formula(self, formula: QuantifiedFormula) -> List[str]:
         qfr = "forall" if isinstance(formula, ForallFormula) else "exists"
